@@ -275,4 +275,34 @@ mutual
     | (_, v) :: kvs => hashInput v ++ hashFields kvs
 end
 
+/-! ### Inherited fields (`lower_class` + `collect_inherited_fields`, src/backend/ir/lower/decl.rs) -/
+
+structure ClassDecl where
+  name : String
+  parent : Option String
+  fields : List (List Char × Ty)
+
+def findClass (cs : List ClassDecl) (n : String) : Option ClassDecl := cs.find? (fun c => c.name == n)
+
+/-- `collect_inherited_fields`: the grandparents' fields first, then the parent's own.  The implementation recurses
+without a bound; the checker rejects cyclic chains (a `fix:` commit), so the number of classes bounds the depth. -/
+def inheritedFields (cs : List ClassDecl) : Nat → String → List (List Char × Ty)
+  | 0, _ => []
+  | fuel + 1, n => match findClass cs n with
+    | none => []
+    | some c => (match c.parent with
+      | some g => inheritedFields cs fuel g
+      | none => []) ++ c.fields
+
+/-- The fields of the struct emitted for a class: inherited ones first, then its own. -/
+def classFields (cs : List ClassDecl) (c : ClassDecl) : List (List Char × Ty) :=
+  (match c.parent with
+  | some p => inheritedFields cs cs.length p
+  | none => []) ++ c.fields
+
+/-- A linear chain of declarations, root first: each level extends the one before it. -/
+def chainDecls : List (String × List (List Char × Ty)) → Option String → List ClassDecl
+  | [], _ => []
+  | (n, fs) :: rest, parent => ⟨n, parent, fs⟩ :: chainDecls rest (some n)
+
 end Incan.Derive
